@@ -7,6 +7,7 @@ import (
 	"sort"
 	"strings"
 	"sync"
+	"sync/atomic"
 
 	"github.com/koestler/go-victron/veconst"
 	"github.com/koestler/go-victron/veproduct"
@@ -71,6 +72,23 @@ func coldProbes() map[string]func() string {
 			return fmt.Sprintf("%016X", fnv64([]byte(sb.String())))
 		}
 		m["enum."+e.name+".IntToStringMap"] = func() string { return intMapStr(e.f.IntToStringMap()) }
+		m["enum."+e.name+".constant"] = func() string {
+			// constants written down directly: index and name must be what the enumeration's map says, also when nothing of
+			// the package was used before (the factory is asked only afterwards)
+			var sb strings.Builder
+			for b := 0; b < 256; b++ {
+				idx, name := e.cast(uint8(b))
+				fmt.Fprintf(&sb, "%d=%d/%s;", b, idx, hexS(name))
+			}
+			ref := e.f.IntToStringMap()
+			for b := 0; b < 256; b++ {
+				_, name := e.cast(uint8(b))
+				if want, ok := ref[b]; ok && name != want {
+					fmt.Fprintf(&sb, "MISMATCH-%d;", b)
+				}
+			}
+			return fmt.Sprintf("%016X", fnv64([]byte(sb.String())))
+		}
 		m["enum."+e.name+".typed"] = func() string {
 			var sb strings.Builder
 			for b := 0; b < 256; b++ {
@@ -85,7 +103,7 @@ func coldProbes() map[string]func() string {
 		m["fieldlist."+fl.name+".IntToStringMap"] = func() string { return intMapStr(fl.f.IntToStringMap()) }
 		m["fieldlist."+fl.name+".Fields"] = func() string {
 			var sb strings.Builder
-			for _, raw := range []uint{0, 1, 0x42, 0x200, 0xF63, 0xFFFF, 0xFFFFFFFF, 1 << 40} {
+			for _, raw := range fitUints(0, 1, 0x42, 0x200, 0xF63, 0xFFFF, 0xFFFFFFFF, 1<<40) {
 				v, err := fl.f.NewFieldList(raw)
 				if err != nil {
 					fmt.Fprintf(&sb, "%d=err;", raw)
@@ -115,7 +133,46 @@ func coldProbes() map[string]func() string {
 			return fmt.Sprintf("%016X", fnv64([]byte(renderList(rl))))
 		}
 	}
+	// every known product (and some unknown ids) asked in an order that is neither ascending nor grouped by family, then again
+	// in another order: what a product gets does not depend on who was asked before
+	m["reglist.any-order"] = func() string {
+		var ids []int
+		for id := 0; id < 65536; id++ {
+			if veproduct.Product(id).Exists() || id%4099 == 7 {
+				ids = append(ids, id)
+			}
+		}
+		res := map[int]string{}
+		ask := func(id int) string {
+			rl, err := veregister.GetRegisterListByProduct(veproduct.Product(id))
+			st := "ok"
+			if err != nil {
+				st = "err:" + errKind(err)
+			}
+			return fmt.Sprintf("%s %016X", st, fnv64([]byte(renderList(rl))))
+		}
+		bad := 0
+		for round := 0; round < 3; round++ {
+			for k := range ids {
+				id := ids[(k*7919+round*31)%len(ids)] // 7919 is prime and larger than the table: a permutation
+				if round == 2 {
+					id = ids[len(ids)-1-k]
+				}
+				got := ask(id)
+				if prev, ok := res[id]; ok && prev != got {
+					bad++
+				}
+				res[id] = got
+			}
+		}
+		var sb strings.Builder
+		for _, id := range ids {
+			fmt.Fprintf(&sb, "%d=%s;", id, res[id])
+		}
+		return fmt.Sprintf("changed-between-rounds=%d %016X", bad, fnv64([]byte(sb.String())))
+	}
 	_ = veconst.ErrInvalidEnumIdx
+	addBleProbes(m)
 	return m
 }
 
@@ -209,4 +266,155 @@ func concurrently(workers, rounds, n int, f func(i int) string) (bad []string) {
 		}
 	}
 	return bad
+}
+
+// ---------- cold start AND concurrency: the first uses of the library happen on several goroutines at once ----------
+
+// coldstartConcurrentMain: `harness coldstartc <probe> <workers>` - `workers` goroutines are released together and each runs the
+// probe as its first action; prints the digest if all agree, else the disagreement
+func coldstartConcurrentMain(name string, workers int) {
+	f, ok := coldProbes()[name]
+	if !ok {
+		fmt.Println("unknown-probe")
+		os.Exit(2)
+	}
+	outs := make([]string, workers)
+	var ready, done sync.WaitGroup
+	var gate int32
+	ready.Add(workers)
+	done.Add(workers)
+	for g := 0; g < workers; g++ {
+		go func(g int) {
+			defer done.Done()
+			outs[g] = "PANIC"
+			defer func() {
+				if r := recover(); r != nil {
+					outs[g] = fmt.Sprintf("PANIC: %v", r)
+				}
+			}()
+			ready.Done()
+			for atomic.LoadInt32(&gate) == 0 { // spin: all start within the same microsecond
+			}
+			outs[g] = f()
+		}(g)
+	}
+	ready.Wait()
+	atomic.StoreInt32(&gate, 1)
+	done.Wait()
+	for g := 1; g < workers; g++ {
+		if outs[g] != outs[0] {
+			fmt.Printf("goroutines-disagree: %s | %s\n", outs[0][:min(80, len(outs[0]))], outs[g][:min(80, len(outs[g]))])
+			return
+		}
+	}
+	// and once more now that everything is warm: a first use that went wrong may have left the tables damaged for good
+	if again := f(); again != outs[0] {
+		fmt.Printf("after-warm-up-differs: %s | %s\n", outs[0][:min(80, len(outs[0]))], again[:min(80, len(again))])
+		return
+	}
+	fmt.Println(outs[0])
+}
+
+// suiteColdMany: every probe with the given prefixes in `restarts` fresh processes single-threaded (what a lookup answers must
+// not depend on the process: map iteration order at init, address-space layout) and in `crestarts` fresh processes with 16
+// goroutines making the first use at once; every answer must equal the warm one
+func suiteColdMany(s *Sink, restarts, crestarts int, prefixes ...string) {
+	exe, _ := os.Executable()
+	probes := coldProbes()
+	var names []string
+	for n := range probes {
+		for _, p := range prefixes {
+			if strings.HasPrefix(n, p) {
+				names = append(names, n)
+			}
+		}
+	}
+	sort.Strings(names)
+	type job struct {
+		name string
+		conc bool
+	}
+	type bad struct {
+		job
+		out string
+	}
+	warm := map[string]string{}
+	var jobs []job
+	for _, n := range names {
+		warm[n] = probes[n]()
+		for i := 0; i < restarts; i++ {
+			jobs = append(jobs, job{n, false})
+		}
+		for i := 0; i < crestarts; i++ {
+			jobs = append(jobs, job{n, true})
+		}
+	}
+	ch := make(chan job)
+	res := make(chan bad, len(jobs))
+	var wg sync.WaitGroup
+	for w := 0; w < 12; w++ {
+		wg.Add(1)
+		go func() {
+			defer wg.Done()
+			for j := range ch {
+				var out []byte
+				var err error
+				if j.conc {
+					out, err = exec.Command(exe, "coldstartc", j.name, "16").Output()
+				} else {
+					out, err = exec.Command(exe, "coldstart", j.name).Output()
+				}
+				o := strings.TrimSpace(string(out))
+				if err != nil {
+					o = "process-failed: " + err.Error() + " " + o
+				}
+				if o != warm[j.name] {
+					res <- bad{j, o}
+				}
+			}
+		}()
+	}
+	for _, j := range jobs {
+		ch <- j
+	}
+	close(ch)
+	wg.Wait()
+	close(res)
+	seen := map[string]int{}
+	for b := range res {
+		key := b.name + map[bool]string{false: "", true: " (16 goroutines at once)"}[b.conc]
+		seen[key]++
+		if seen[key] == 1 {
+			s.Violate("CM "+key, b.out[:min(200, len(b.out))], fmt.Sprintf("%s as the first use of the library in a fresh process gives %s; the same sweep later (and in the other processes) gives %s", key, b.out[:min(100, len(b.out))], warm[b.name][:min(60, len(warm[b.name]))]))
+		}
+	}
+	s.Extra["fresh_process_runs"] += restarts * len(names)
+	s.Extra["fresh_process_concurrent_first_use_runs"] += crestarts * len(names)
+}
+
+// addBleProbes: every record decoder on a few fixed inputs (first use of bleparser and of the enumerations behind it)
+func addBleProbes(m map[string]func() string) {
+	for _, d := range bleDecoders() {
+		d := d
+		m["ble."+d.name] = func() string {
+			var sb strings.Builder
+			for k := 0; k < 6; k++ {
+				inp := make([]byte, d.n+k%3)
+				for i := range inp {
+					inp[i] = byte(i*37 + k*11)
+					if k == 1 {
+						inp[i] = 0xFF
+					}
+				}
+				for _, f := range d.fields {
+					if f.enum {
+						setBits(inp, f.start, f.width, uint64(validEnumByte[k%len(validEnumByte)]))
+					}
+				}
+				sb.WriteString(decodeReal(d, inp, nil))
+				sb.WriteByte('|')
+			}
+			return fmt.Sprintf("%016X", fnv64([]byte(sb.String())))
+		}
+	}
 }
